@@ -60,9 +60,11 @@ class StreamingControl(Obligation):
     desc = 'handle_streaming_pull_request: a control message that is rejected (InvalidArgument) has changed nothing - no request reached the subscription before the rejection'
     bounds = {'ack_ids': 2, 'modifications': 2}
 
-    def __init__(self, ctx):
+    def __init__(self, ctx, n=2):
         install_tokens(ctx)
-        self.unroll = 6
+        self.unroll = n + 4
+        self.n = n
+        self.bounds = {'ack_ids': n, 'modifications': n}
 
     def body(self, ip, p):
         ctx = ip.ctx
@@ -71,14 +73,14 @@ class StreamingControl(Obligation):
         nsub = p.fresh('subscription_field')
         mob, mom = p.fresh('max_outstanding_bytes'), p.fresh('max_outstanding_messages')
         p.assume(z3.And(mob >= -(1 << 63), mob < (1 << 63), mom >= -(1 << 63), mom < (1 << 63)))
-        acks = [StrTok(p.fresh('ack%d' % i)) for i in range(2)]
+        acks = [StrTok(p.fresh('ack%d' % i)) for i in range(self.n)]
         na = p.fresh('n_acks')
-        mids = [StrTok(p.fresh('mod_ack%d' % i)) for i in range(2)]
+        mids = [StrTok(p.fresh('mod_ack%d' % i)) for i in range(self.n)]
         nm = p.fresh('n_mod_ids')
-        secs = [S(p.fresh('mod_secs%d' % i), 'i32') for i in range(2)]
+        secs = [S(p.fresh('mod_secs%d' % i), 'i32') for i in range(self.n)]
         ns = p.fresh('n_mod_secs')
         for t in (na, nm, ns):
-            p.assume(z3.And(t >= 0, t <= 2))
+            p.assume(z3.And(t >= 0, t <= self.n))
         for s_ in secs:
             p.assume(z3.And(s_.t >= -(1 << 31), s_.t < (1 << 31)))
         req = proto(ctx, 'StreamingPullRequest', subscription=StrTok(nsub), ack_ids=Seq(acks, na), modify_deadline_seconds=Seq(secs, ns),
@@ -143,7 +145,7 @@ def obligations(ctx, cfg):
             ParserWrapper(ctx, 'parse_topic_name', 22 if q else 30),
             ParserWrapper(ctx, 'parse_subscription_name', 29 if q else 37),
             ParserWrapper(ctx, 'parse_project_id', cap),
-            StreamingControl(ctx)]
+            StreamingControl(ctx, 2 if q else 3)]
 
 
 def kani_harnesses(cfg):
